@@ -150,6 +150,12 @@ class IsoDepInitiator(object):
                     data = self.clf.exchange(data, timeout)
                     if len(data) == 0:
                         raise nfc.clf.TransmissionError
+                    while data[0] & 0b11111110 == 0b11110010:  # WTX
+                        log.debug("ISO-DEP waiting time extension")
+                        wtx_timeout = (data[1] & 0x3F) * self.fwt
+                        data = self.clf.exchange(data, wtx_timeout)
+                        if len(data) == 0:
+                            raise nfc.clf.TransmissionError
                     break
                 except nfc.clf.TransmissionError:
                     if i <= self.n_retry_ack:
